@@ -2,3 +2,7 @@ import TypedPathVerif.Model.Basic
 import TypedPathVerif.Model.Parser
 import TypedPathVerif.Model.Enc
 import TypedPathVerif.Model.Path
+import TypedPathVerif.Lemmas.Tokens
+import TypedPathVerif.Lemmas.Laws
+import TypedPathVerif.Lemmas.EncNew
+import TypedPathVerif.Props.C03
